@@ -42,6 +42,10 @@ def abstract(x, H):
 
 
 def mk_dep(kind, H, rnd=None):
+    if kind == "d0":
+        return H.HTMLDependency("m", "0.3")                 # a bare marker: nothing to emit but its name in the listing
+    if kind == "d6":
+        return H.HTMLDependency("assets", "1.2", source={"subdir": "w"}, all_files=True)   # asset-only
     if kind == "d1":
         return H.HTMLDependency("a", "1.0", source={"subdir": "libsrc"}, script={"src": "s.js"}, stylesheet={"href": "c.css"})
     if kind == "d2":
@@ -113,7 +117,7 @@ class C11(Prop):
 
     def gens_random(self, tier, rnd):
         gens = []
-        kinds = ["html", "head", "body", "div", "span", "text", "d1", "d2", "d3", "d4", "d5", "hc", "hc2", "section",
+        kinds = ["html", "head", "body", "div", "span", "text", "d0", "d6", "d1", "d2", "d3", "d4", "d5", "hc", "hc2", "section",
                  "tfyd", "tfyt", "metacs"]
 
         def node(depth):
@@ -134,6 +138,11 @@ class C11(Prop):
             gens.append({"kind": "doc", "tree": {"k": "root", "c": top}, "args": args,
                          "prefix": rnd.choice(["lib", None, "a/b", "x"]), "inclver": rnd.random() < 0.5, "later": rnd.random() < 0.3})
         leaf = lambda k: {"k": k, "c": []}
+        # documents whose dependencies emit no markup at all: the listing must still name them
+        for deps in (["d0"], ["d6"], ["d0", "d6"], ["d0", "d1"]):
+            for top in ("html", "body", "div"):
+                gens.append({"kind": "doc", "tree": {"k": "root", "c": [{"k": top, "c": [leaf("text")] + [leaf(d) for d in deps]}]},
+                             "args": [], "prefix": "lib", "inclver": False, "later": False})
         for headkids in (["metacs"], ["text", "metacs", "d1"], ["d3", "metacs", "hc"], ["tfyd"], ["section", "tfyt"]):
             for pos in (0, 1, 2):
                 sibs = [leaf("div"), {"k": "body", "c": [leaf("text"), leaf("tfyd")]}]
